@@ -32,6 +32,10 @@ type Op struct {
 	Kind string `json:"kind"` // settings, priority, window_update, burst, wait
 	N    int    `json:"n,omitempty"`
 	Prio bool   `json:"prio,omitempty"` // burst: HEADERS carry priority
+	// burst: earlier streams are awaited first, then every request of the burst is cancelled by the client
+	// (RST_STREAM) right behind its HEADERS: the connection has no open stream any more while the handlers of
+	// the cancelled requests are still computing fingerprints
+	Reset bool `json:"reset,omitempty"`
 }
 
 type Script struct {
@@ -52,7 +56,13 @@ func gen(t *rapid.T) Script {
 				continue
 			}
 			streams += b
-			s.Ops = append(s.Ops, Op{Kind: "burst", N: b, Prio: rapid.Bool().Draw(t, "prio")})
+			o := Op{Kind: "burst", N: b, Prio: rapid.Bool().Draw(t, "prio"), Reset: rapid.IntRange(0, 3).Draw(t, "reset") == 0}
+			s.Ops = append(s.Ops, o)
+			if o.Reset {
+				for k := rapid.IntRange(1, 4).Draw(t, "after-reset"); k > 0; k-- {
+					s.Ops = append(s.Ops, Op{Kind: rapid.SampledFrom([]string{"settings", "priority", "window_update"}).Draw(t, "arkind")})
+				}
+			}
 		default:
 			s.Ops = append(s.Ops, Op{Kind: k})
 		}
@@ -107,6 +117,7 @@ func exec(t *testing.T, s Script) *vstat.Violation {
 	var reqs []*rig.Recorded
 	var failure string
 	inFlightWhileWriting := false
+	resetBursts := false
 	spin := &spinInjector{seen: map[string]bool{}, n: 30}
 	msg := rig.Bubble(t, func() {
 		p := rig.StartProxy(rig.ProxyOpts{IdleTimeout: 10 * time.Minute, TLSHandshakeTimeout: 10 * time.Second,
@@ -161,6 +172,10 @@ func exec(t *testing.T, s Script) *vstat.Violation {
 				peer.Fr.WriteWindowUpdate(0, 1000+ver)
 				sent = append(sent, h2fp.Frame{Kind: "window_update", Inc: 1000 + ver})
 			case "burst":
+				if op.Reset {
+					settle()
+					resetBursts = true
+				}
 				for i := 0; i < op.N; i++ {
 					sid := next
 					next += 2
@@ -185,6 +200,10 @@ func exec(t *testing.T, s Script) *vstat.Violation {
 					if err := peer.WriteRequestHeaders(sid, fields, true, pr, nil); err != nil {
 						failure = "write: " + err.Error()
 						return
+					}
+					if op.Reset {
+						peer.Fr.WriteRSTStream(sid, xhttp2.ErrCodeCancel)
+						continue
 					}
 					outstanding = append(outstanding, sid)
 				}
@@ -245,12 +264,15 @@ func exec(t *testing.T, s Script) *vstat.Violation {
 	if len(reqs) >= 2 {
 		cl = append(cl, "several-streams")
 	}
+	if resetBursts {
+		cl = append(cl, "streams-cancelled-by-the-client-while-their-handlers-run")
+	}
 	col.Case(fmt.Sprintf("%+v", s), inFlightWhileWriting && len(reqs) >= 2, map[string]any{"ops": s.Ops, "requests": len(reqs), "frames_sent": len(sent)}, cl...)
 	return nil
 }
 
 func TestStreams(t *testing.T) {
 	rig.Certs()
-	col.Mandatory("streams-in-flight-while-fingerprint-frames-arrive", "several-streams")
+	col.Mandatory("streams-in-flight-while-fingerprint-frames-arrive", "several-streams", "streams-cancelled-by-the-client-while-their-handlers-run")
 	vstat.Run(t, vstat.Spec[Script]{Col: col, Quick: 150, Thorough: 4000, Gen: gen, ScheduleDependent: true, Exec: func(s Script) *vstat.Violation { return exec(t, s) }})
 }
